@@ -29,6 +29,22 @@ Definition hc_agrees (c : hcase) : bool :=
 
 Definition repo_mismatches (l : list hcase) : list nat := map hc_idx (filter (fun c => negb (hc_agrees c)) l).
 
+(* ---- histories over several configurations (a restart between the segments) *)
+Record scase := mk_sc { sc_idx : nat; sc_segs : list (rcfg * list rstep); sc_obs : list N }.
+
+Fixpoint run_segments_obs (segs : list (rcfg * list rstep)) (s : env * rstate) : list N :=
+  match segs with
+  | [] => []
+  | (cfg, xs) :: r =>
+    let '(s', o) := run_steps cfg (fst s, restart cfg (snd s)) xs in
+    map obs_code o ++ run_segments_obs r s'
+  end.
+Definition lenient_segs (segs : list (rcfg * list rstep)) := map (fun p => (lenient (fst p), snd p)) segs.
+
+Definition sc_agrees (c : scase) : bool :=
+  obs_agree (run_segments_obs (sc_segs c) init_state) (run_segments_obs (lenient_segs (sc_segs c)) init_state) (sc_obs c).
+Definition seg_mismatches (l : list scase) : list nat := map sc_idx (filter (fun c => negb (sc_agrees c)) l).
+
 (* ---- C12: crash images *)
 From Verif Require Import RepoProofs RepoProps.
 Record ccase := mk_cc {
